@@ -191,7 +191,7 @@ class WassersteinGEMINI(_GEMINI, ABC):
     @constraint_params(
         {
             "ovo": [bool],
-            "metric": [StrOptions(set(list(PAIRED_DISTANCES) + ["precomputed"]))],
+            "metric": [StrOptions(set(list(PAIRED_DISTANCES) + ["precomputed"])), callable],
             "metric_params": [dict, None],
             "epsilon": [Interval(Real, 0, 1, closed="neither")]
         }
